@@ -994,7 +994,16 @@ pub(crate) fn verify_tau(
         let start_epoch_difficulty = start_block_difficulty * start_epoch.length();
         let end_epoch_difficulty = end_block_difficulty * end_epoch.length();
         // How many times are epochs switched?
-        let epochs_switch_count = end_epoch.number() - start_epoch.number();
+        let epochs_switch_count =
+            if let Some(count) = end_epoch.number().checked_sub(start_epoch.number()) {
+                count
+            } else {
+                let errmsg = format!(
+                    "failed since the epochs are not in order ([{:#},{:#}])",
+                    start_epoch, end_epoch
+                );
+                return Err(StatusCode::MalformedProtocolMessage.with_context(errmsg));
+            };
         let epoch_difficulty_trend =
             EpochDifficultyTrend::new(&start_epoch_difficulty, &end_epoch_difficulty);
         Ok(epoch_difficulty_trend.check_tau(tau, epochs_switch_count))
